@@ -974,7 +974,17 @@ func (b *beacon) ShiftExpired(howMany int) []treasure.Treasure {
 	counter := 0
 	now := time.Now().UTC().UnixNano()
 	for _, treasureObj := range b.treasuresByOrder {
-		lockerID := treasureObj.StartTreasureGuard(true)
+		// Try-lock only. Every other path takes the record guard first and
+		// this beacon's mutex second (deleteHandler, SaveFunction's expiry
+		// re-index); waiting for a guard while holding b.mu is the opposite
+		// order and deadlocks against them. A record whose guard is busy is
+		// left in place for the next call: the caller still receives at most
+		// howMany records, in index order.
+		lockerID := treasureObj.StartTreasureGuard(false)
+		if lockerID == 0 {
+			remainingTreasures = append(remainingTreasures, treasureObj)
+			continue
+		}
 		// ExpirationTime == 0 means "never expires" (matches IsExpired);
 		// guard against returning rows whose TTL was cleared after they
 		// were originally indexed.
@@ -1044,7 +1054,13 @@ func (b *beacon) ShiftMatching(howMany int, predicate func(treasure.Treasure) bo
 	counter := 0
 	matchesBeyondBudget := 0
 	for _, treasureObj := range b.treasuresByOrder {
-		lockerID := treasureObj.StartTreasureGuard(true)
+		// Try-lock only (see ShiftExpired): never wait for a record guard
+		// while holding b.mu. A guard-busy record stays for the next call.
+		lockerID := treasureObj.StartTreasureGuard(false)
+		if lockerID == 0 {
+			remainingTreasures = append(remainingTreasures, treasureObj)
+			continue
+		}
 		matched := predicate(treasureObj)
 		if matched && counter < effectiveHowMany {
 			clonedTreasure := treasureObj.Clone(lockerID)
